@@ -196,7 +196,7 @@ Definition C11_mask_stmt : Prop :=
 
 (* ================= C12 (histories) ================= *)
 Inductive sop :=
-| SReset | SStep (a : action) (k : Z) | SGen (i : nat) (a : action) (k : Z) | SGoal (i : nat).
+| SReset | SStep (a : action) (k : Z) | SGen (i : nat) (a : action) (k : Z) | SGoal (i : nat) | SInit.
 
 Definition sem_op (sc : scenario) (m : modes) (o : op) : option sop :=
   match o with
@@ -205,6 +205,7 @@ Definition sem_op (sc : scenario) (m : modes) (o : op) : option sop :=
   | OGen i x k => option_map (fun a => SGen i a k) (decode_arg sc m x)
   | OGoal i => Some (SGoal i)
   | OMask => None
+  | OInit => Some SInit
   end.
 
 (* an op output without the observation arrays *)
@@ -212,7 +213,7 @@ Inductive pout :=
 | PReset (st : state)
 | PStep (nx : state) (rw : Z) (dn : bool) (r : result) (u : bool) (lim : bool) (steps : nat)
 | PGen (nx : state) (rw : Z) (dn : bool) (r : result) (u : bool) (steps : nat)
-| PGoal (b : bool) | PMask (m : list bool) | PErr.
+| PGoal (b : bool) | PMask (m : list bool) | PInit (st : state) | PErr.
 
 Definition proj_out (o : opout) : pout :=
   match o with
@@ -221,6 +222,7 @@ Definition proj_out (o : opout) : pout :=
   | RGen out steps => PGen (o_next out) (o_reward out) (o_done out) (o_res out) (o_used out) steps
   | RGoal b => PGoal b
   | RMask m => PMask m
+  | RInit st => PInit st
   | RError => PErr
   end.
 
